@@ -150,6 +150,13 @@ package tracer
 //@   ensures @once old(atomicBoolV[t.closed]) ==> evN[t.builder] == old(evN[t.builder])
 //@   ensures @bodyend !old(atomicBoolV[t.closed]) ==> evN[t.builder] >= old(evN[t.builder]) + 1 && evN[t.builder] <= old(evN[t.builder]) + 2 &&
 //@        evKind[t.builder][evN[t.builder] - 1] == (t.isRequest ? 4 : 5)
+//@   //# whatever the reason the body ends (clean end, read error, early Close), the unfinished tail is
+//@   //# reported before the body-end event and the machine is idle afterwards
+//@   ensures @idle !old(atomicBoolV[t.closed]) ==> t.dataTracer.expecting == 0 && t.dataTracer.actual == 0 && len(t.dataTracer.prefix) == 0 && t.dataTracer.env == nil && t.dataTracer.endStream == nil
+//@   ensures @tail-prefix !old(atomicBoolV[t.closed]) && old(t.dataTracer.isStreamProtocol) && old(t.dataTracer.expecting) == 0 && old(len(t.dataTracer.prefix)) > 0 ==>
+//@        evN[t.builder] == old(evN[t.builder]) + 2 && evLen[t.builder][old(evN[t.builder])] == old(len(t.dataTracer.prefix)) && evEnv[t.builder][old(evN[t.builder])] == nil
+//@   ensures @tail-payload !old(atomicBoolV[t.closed]) && old(t.dataTracer.isStreamProtocol) && old(t.dataTracer.expecting) > 0 && old(t.dataTracer.actual) > 0 ==>
+//@        evN[t.builder] == old(evN[t.builder]) + 2 && evLen[t.builder][old(evN[t.builder])] == old(t.dataTracer.actual)
 
 // Read: the caller gets exactly what the wrapped reader returned - same count, same error,
 // same bytes - and the bytes read are handed to the tracer.
@@ -222,3 +229,4 @@ package tracer
 //@   ensures @stable t.respWriter == old(t.respWriter) && t.req == old(t.req) && t.builder == old(t.builder)
 //@   ensures @once old(t.finished) ==> evN[t.builder] == old(evN[t.builder])
 //@   ensures @bodyend !old(t.finished) ==> evN[t.builder] >= old(evN[t.builder]) + 1 && evKind[t.builder][evN[t.builder] - 1] == 5
+//@   ensures @idle !old(t.finished) ==> t.dataTracer.expecting == 0 && t.dataTracer.actual == 0 && len(t.dataTracer.prefix) == 0 && t.dataTracer.env == nil && t.dataTracer.endStream == nil
